@@ -1,4 +1,5 @@
 import ColaVerif.DriverLib
+import ColaVerif.Model.KernelOp
 
 /-!
 Line-protocol driver of the operator-tree family (C01, C02, C03, C05, C20): one JSON case per
@@ -12,6 +13,19 @@ def handle (j : Json) : E String := do
   let id := (j.getObjVal? "id").toOption.getD .null
   let call ← jStr ((j.getObjVal? "call").toOption.getD .null)
   if call == "expr" then return (← handleExpr j)
+  if call == "kernel" then
+    let km ← jMat ((j.getObjVal? "K").toOption.getD .null)
+    let xm ← jMat ((j.getObjVal? "x").toOption.getD .null)
+    let n ← jNat ((j.getObjVal? "n").toOption.getD .null)
+    let m ← jNat ((j.getObjVal? "m").toOption.getD .null)
+    let bs1 ← jNat ((j.getObjVal? "bs1").toOption.getD .null)
+    let bs2 ← jNat ((j.getObjVal? "bs2").toOption.getD .null)
+    let b := (xm.getD 0 #[]).size
+    let K := (forceV n m (matF km)).f
+    let X := (forceV m b (matF xm)).f
+    let code := (forceV n b (kernelMatmat K n m bs1 bs2 X).f).f
+    let spec := (forceV n b (mmul m K X)).f
+    return "{\"id\":" ++ id.compress ++ ",\"code\":" ++ showMat n b code ++ ",\"spec\":" ++ showMat n b spec ++ "}"
   if call == "resolve" then
     -- primitive stream: `np.arange(n)[ix]`
     let n ← jNat ((j.getObjVal? "n").toOption.getD .null)
